@@ -329,6 +329,9 @@ def check(pid, tier, batch_seed):
     b = mod.budget(tier)
     # chunk wall cap: generous, the machine may be shared; a kill is always a harness error
     n_runs, wall_cap = b["runs"], max(b.get("wall", 600), 1800)
+    if os.environ.get("VERIF_RUNS"):
+        # smoke-testing a tier with fewer runs (never used by a registered command)
+        n_runs = int(os.environ["VERIF_RUNS"])
     extra_env = b.get("env")
     say("check %s tier=%s VERIF_SEED=%d runs=%d repo_src=%s" % (
         pid, tier, batch_seed, n_runs, repo_src()))
